@@ -60,6 +60,47 @@ func boundaryProgs(rng *kc.Rng, q *big.Int, src func(i int) []byte, withBase boo
 	return out
 }
 
+// inplaceProgs: a point variable is updated IN PLACE by each operation in turn (negation, doubling, addition and
+// subtraction with itself as either operand, scalar multiplication, Set) and then used in every operand position of
+// the other operations before it is encoded: cached or redundant coordinates that an in-place update forgets to
+// refresh change a later result, not the value just written.
+func inplaceProgs(rng *kc.Rng, q *big.Int, src func(i int) []byte, withBase bool) []prog {
+	var out []prog
+	ups := [][]stmt{
+		{{dst: "p1", op: "neg", args: []string{"p1"}}},
+		{{dst: "p1", op: "add", args: []string{"p1", "p1"}}},
+		{{dst: "p1", op: "add", args: []string{"p1", "p0"}}},
+		{{dst: "p1", op: "add", args: []string{"p0", "p1"}}},
+		{{dst: "p1", op: "sub", args: []string{"p1", "p0"}}},
+		{{dst: "p1", op: "sub", args: []string{"p0", "p1"}}},
+		{{dst: "p1", op: "mul", args: []string{"s1", "p1"}}},
+		{{dst: "p1", op: "set", args: []string{"p0"}}, {dst: "p1", op: "neg", args: []string{"p1"}}},
+		{{dst: "p1", op: "neg", args: []string{"p1"}}, {dst: "p1", op: "neg", args: []string{"p1"}}},
+	}
+	for _, up := range ups {
+		var p prog
+		p.stmts = append(p.stmts, stmt{dst: "s0", op: "const", lit: kc.HexN(rng.BigBelow(q))}, stmt{dst: "s1", op: "const", lit: kc.HexN(rng.BigBelow(q))})
+		if withBase {
+			p.stmts = append(p.stmts, stmt{dst: "p0", op: "base"}, stmt{dst: "p1", op: "mulbase", args: []string{"s0"}})
+		} else if src != nil {
+			p.stmts = append(p.stmts, stmt{dst: "p0", op: "dec", lit: kc.HexB(src(0))}, stmt{dst: "p1", op: "dec", lit: kc.HexB(src(1))})
+		} else {
+			return nil
+		}
+		p.stmts = append(p.stmts, up...)
+		p.stmts = append(p.stmts,
+			stmt{dst: "p2", op: "add", args: []string{"p1", "p0"}},
+			stmt{dst: "p3", op: "add", args: []string{"p0", "p1"}},
+			stmt{dst: "p4", op: "sub", args: []string{"p0", "p1"}},
+			stmt{dst: "p5", op: "mul", args: []string{"s1", "p1"}},
+			stmt{dst: "p6", op: "add", args: []string{"p1", "p1"}},
+			stmt{dst: "p7", op: "neg", args: []string{"p1"}},
+			stmt{dst: "p8", op: "sub", args: []string{"p1", "p0"}})
+		out = append(out, p)
+	}
+	return out
+}
+
 type stmt struct {
 	dst  string   // pN or sN
 	op   string   // base null add sub neg mul mulbase set dec | const add sub mul div neg inv set
